@@ -261,8 +261,10 @@ struct Value {
     }
 
     Value &operator=(ObjectT &&obj) noexcept {
+        ObjectT n_obj{Memory::Move(obj)}; // 'obj' may be owned by a member of this value: take it before reset().
+
         reset();
-        object_ = Memory::Move(obj);
+        object_ = Memory::Move(n_obj);
         setTypeToObject();
 
         return *this;
@@ -279,8 +281,10 @@ struct Value {
     }
 
     Value &operator=(ArrayT &&arr) noexcept {
+        ArrayT n_arr{Memory::Move(arr)}; // 'arr' may be owned by an item of this value: take it before reset().
+
         reset();
-        array_ = Memory::Move(arr);
+        array_ = Memory::Move(n_arr);
         setTypeToArray();
 
         return *this;
@@ -297,8 +301,10 @@ struct Value {
     }
 
     Value &operator=(StringT &&str) noexcept {
+        StringT n_str{Memory::Move(str)}; // 'str' may be owned by a member of this value: take it before reset().
+
         reset();
-        string_ = Memory::Move(str);
+        string_ = Memory::Move(n_str);
         setTypeToString();
 
         return *this;
@@ -455,15 +461,18 @@ struct Value {
     }
 
     inline void operator+=(ObjectT &&obj) {
+        // 'obj' may be owned by a member of this value (reset() and a growing table / array would release it).
+        ObjectT n_obj{Memory::Move(obj)};
+
         if (isObject()) {
-            object_ += Memory::Move(obj);
+            object_ += Memory::Move(n_obj);
         } else {
             if (!isArray()) {
                 reset();
                 setTypeToArray();
             }
 
-            array_ += Value{Memory::Move(obj)};
+            array_ += Value{Memory::Move(n_obj)};
         }
     }
 
@@ -472,15 +481,18 @@ struct Value {
     }
 
     inline void operator+=(ArrayT &&arr) {
+        // 'arr' may be owned by an item of this value (reset() and a growing array would release it).
+        ArrayT n_arr{Memory::Move(arr)};
+
         if (!isArray()) {
             reset();
             setTypeToArray();
         }
 
-        if (arr.Size() != 0) {
-            array_ += Memory::Move(arr);
+        if (n_arr.Size() != 0) {
+            array_ += Memory::Move(n_arr);
         } else {
-            array_ += Value{Memory::Move(arr)};
+            array_ += Value{Memory::Move(n_arr)};
         }
     }
 
@@ -489,12 +501,14 @@ struct Value {
     }
 
     inline void operator+=(StringT &&str) {
+        Value n_val{Memory::Move(str)}; // 'str' may be owned by a member of this value: take it before reset().
+
         if (!isArray()) {
             reset();
             setTypeToArray();
         }
 
-        array_ += Value{Memory::Move(str)};
+        array_ += Memory::Move(n_val);
     }
 
     inline void operator+=(const StringT &str) {
